@@ -102,7 +102,10 @@ func TestVF_Server(t *testing.T) {
 		case "serve":
 			if vfBool(sc, "bubble", false) {
 				// virtual time, no notify socket: for everything that depends on how long a task takes to stop
-				synctest.Test(t, func(t *testing.T) { vfServeScenario(rec, sc, "") })
+				if res := vfBubble(t, func(t *testing.T) { vfServeScenario(rec, sc, "") }); res != "" {
+					// goroutines of Serve were still blocked when the scenario ended (or something panicked)
+					rec.raw(map[string]any{"ev": "hang", "msg": res})
+				}
 			} else {
 				vfServeScenario(rec, sc, filepath.Join(dir, fmt.Sprintf("n%d.sock", n)))
 			}
